@@ -51,6 +51,19 @@ def check_typing(ctx, case):
             ctx.fail("{} on {!r} rotated by {}: a record annotated topology={!r} is typed {} instead of {}".format(
                 cls.__name__, wd, r, topo, got[:3], base[:3]), dict(case, rots=[r]))
             break
+    # a plasmid read from a FASTA file is a plain SeqRecord that says nothing about its topology: the library takes
+    # it for circular, so its verdict is the circular record's, wherever the file happens to start
+    for r in (rots[:2] + rots[-2:]) if rots else []:
+        plain = impl.SeqRecord(impl.Seq(gen.rot(wd, r)), id="fasta")
+        try:
+            v = cls(plain).is_valid()
+        except Exception as e:  # noqa
+            v = "exc:" + type(e).__name__
+        if v != (base[0] == "valid"):
+            ctx.fail("{} on {!r} rotated by {}: a plain SeqRecord without topology annotation is {} but the circular "
+                     "record is {}".format(cls.__name__, wd, r, "accepted" if v is True else "rejected" if v is False else v,
+                                           base[0]), dict(case, rots=[r]))
+            break
     ctx.note("verdict:" + base[0])
     ctx.note("rotations", len(rots))
     ctx.case(case, nontrivial=base[0] == "valid", key=[case["cls"], wd])
